@@ -465,8 +465,17 @@ class C08Rig:
                     if not pub_ok or (not flag_ok and not cl.get("via")):
                         raise RuntimeError(f"could not establish subscription state {cl}: "
                                            f"{c._sub_all} {c.subscribed_types}")
-                    with watchdog(3.0):
-                        m = c.read_message(timeout=cl["timeout"], ack=cl["ack"], sync_check=cl["sync"])
+                    # the clock the client consults while it discards queued messages it is not subscribed to runs FAST here
+                    # (10 s per look): whatever time budget bookkeeping read_message does, an unsubscribed message must
+                    # never come back because "time ran out" while discarding
+                    import pyrtma.client as _PC
+                    _real_time = _PC.time
+                    _PC.time = _FastClock(_real_time)
+                    try:
+                        with watchdog(3.0):
+                            m = c.read_message(timeout=cl["timeout"], ack=cl["ack"], sync_check=cl["sync"])
+                    finally:
+                        _PC.time = _real_time
                     if m is None:
                         outs.append(["none", c.connected])
                     else:
@@ -498,6 +507,22 @@ class C08Rig:
             if drainer is not None:
                 drainer.join(1.0)
             drop_client(c)
+
+
+class _FastClock:
+    """stands for the `time` module inside pyrtma.client during a read_message under test: perf_counter jumps ahead by
+    10 s every time it is read; everything else is the real module"""
+
+    def __init__(self, real):
+        self._real = real
+        self._t = real.perf_counter()
+
+    def perf_counter(self):
+        self._t += 10.0
+        return self._t
+
+    def __getattr__(self, name):
+        return getattr(self._real, name)
 
 
 def run_c08(job):
